@@ -138,6 +138,19 @@ fn bound(kind: u64, v: u64) -> Bound<u8> {
 fn install(idt: &mut InterruptDescriptorTable, lo: Bound<u8>, hi: Bound<u8>) {
     x86_64::set_general_handler!(idt, general, (lo, hi));
 }
+/// another general handler, installed first: installing `general` afterwards must replace it everywhere
+fn general_other(_frame: InterruptStackFrame, index: u8, _error_code: Option<u64>) {
+    unsafe {
+        OTHER_CALLS += 1;
+        if index == 8 || index == 18 {
+            escape();
+        }
+    }
+}
+static mut OTHER_CALLS: u64 = 0;
+fn install_other(idt: &mut InterruptDescriptorTable) {
+    x86_64::set_general_handler!(idt, general_other);
+}
 
 pub fn run(c: &[u64]) -> Vec<i128> {
     match c {
@@ -170,6 +183,11 @@ pub fn run(c: &[u64]) -> Vec<i128> {
         }
         [2, v, k, rsp_off, rflags, err] if *v < 256 && *k < 16 && *rsp_off < 4000 => unsafe {
             let mut idt = InterruptDescriptorTable::new();
+            // every second case: the table already holds the stubs of another general handler
+            let preinstalled = (*v + *k + *rsp_off) % 2 == 1;
+            if preinstalled && catch(std::panic::AssertUnwindSafe(|| install_other(&mut idt))).is_none() {
+                return vec![PANIC];
+            }
             if catch(std::panic::AssertUnwindSafe(|| install(&mut idt, Bound::Unbounded, Bound::Unbounded))).is_none() {
                 return vec![PANIC];
             }
